@@ -69,7 +69,7 @@ structure RInv (np ne m : Nat) (s : St) : Prop where
   ne_eq : s.ne = ne
   n_eq : s.t.n = np + ne
   good : s.t.Good
-  indep : s.t.Indep
+  indep : s.t.LinIndep
   lit : ∀ q, m ≤ q → q < np → s.t.Lit q
   notProd : ∀ p, p < m → s.t.NotProd p
   cut : ∀ k, k + 1 < m → s.t.cutRank k ≤ ne + (k + 1)
@@ -78,7 +78,7 @@ structure RInv (np ne m : Nat) (s : St) : Prop where
     what concerns photon `p` itself -/
 theorem RInv.reach {np ne p : Nat} {s : St} (h : RInv np ne (p + 1) s) (hp : p < np) (t' : STab)
     (hr : Reach (fun c => c = p ∨ np ≤ c) s.t t') :
-    t'.n = np + ne ∧ t'.Good ∧ t'.Indep ∧ (∀ q, p + 1 ≤ q → q < np → t'.Lit q) ∧ (∀ p', p' < p → t'.NotProd p') ∧
+    t'.n = np + ne ∧ t'.Good ∧ t'.LinIndep ∧ (∀ q, p + 1 ≤ q → q < np → t'.Lit q) ∧ (∀ p', p' < p → t'.NotProd p') ∧
     (∀ k, k + 1 < p + 1 → t'.cutRank k ≤ ne + (k + 1)) := by
   refine ⟨hr.n_eq.trans h.n_eq, hr.good h.good, hr.indep h.good h.indep, ?_, ?_, ?_⟩
   · intro q hq1 hq2
